@@ -64,7 +64,8 @@ fn main() {
     let mut dia_small: Vec<usize> = Vec::new();
     let mut dia_big: Vec<usize> = Vec::new();
     {
-        let mut pool = chosen.clone();
+        // records with a known T-solve failure are not used for diagrams (their missing point is that finding)
+        let mut pool: Vec<usize> = chosen.iter().copied().filter(|&i| !known.iter().any(|(f, k)| f == &cat[i].1 && *k == cat[i].2)).collect();
         let (ns, nb) = if full { (160, 32) } else { (8, 4) };
         for j in 0..ns.min(pool.len()) {
             let k = rng.below(pool.len());
